@@ -65,6 +65,13 @@ def base_streams(size: str = "small") -> tuple:
         data = DR.g_write(seq, cls, opts, "stream_frames_sink", bindings=[(p, i) for p, i in bind])
         out.append(_entry(f"ns/{cls}", cls, data, True))
         out.append(_entry(f"ns+empty/{cls}", cls, with_empty_frames(data), True))
+    # frames of 128+ bytes (two-byte length prefixes), still a short stream
+    from mc import roundtrip as RT0  # noqa: PLC0415
+
+    for cls in ("triple", "graph"):
+        seq = RT0.scale_seq("names300", 3 if cls == "triple" else 4)[:14]
+        data = DR.g_write(seq, cls, DR.make_options(cls, (16, 4, 4), 12, True))
+        out.append(_entry(f"mid/{cls}/fs12", cls, data, all(T.is_rdf11(s) for s in seq)))
     if size == "full":
         # boundary-crossing streams: frames larger than BufferedReader's 8 KiB buffer and than
         # the 16383/16384 varint boundary, many frames, very long strings
